@@ -16,7 +16,7 @@ use std::net::{Ipv4Addr, Ipv6Addr};
 
 pub const META: Meta = Meta {
     level: "exploration",
-    rule: "every demanded address of 1..=4 components over {ip4 a, ip4 b, ip6 c, dns4, tcp, udp, p2p requester, p2p other, p2p-circuit} (7380 addresses) as a single-element list, and every ordered pair of addresses of <= 2 components (8100 lists), each against observed address in {ip4, ip6, dns-only}, through the real filter_valid_addrs. Throttling part: BFS over {dial request from P1/P2/P3, dial-back of P finished ok / failed, unrelated outbound / inbound connection of P established and closed during its dial-back, advance 500 ms / 1 s} on the real Behaviour. Non-trivial = distinct (observed, list) cases for which at least one address is returned, plus BFS states with at least one accepted probe inside the window.",
+    rule: "every demanded address of 1..=4 components over {ip4 a, ip4 b, ip6 c, dns4, tcp, udp, p2p requester, p2p other, p2p-circuit} (7380 addresses) as a single-element list, and every ordered pair of addresses of <= 2 components (8100 lists), each against observed address in {ip4, ip6, dns-only}, through the real filter_valid_addrs. Throttling part: BFS over {dial request from P1/P2/P3, dial-back of P finished ok / failed, unrelated outbound / inbound connection of P established and closed during its dial-back, AddressChange of P's connection (direct IP a / direct IP b / relayed), advance 500 ms / 1 s} on the real Behaviour. Non-trivial = distinct (observed, list) cases for which at least one address is returned, plus BFS states with at least one accepted probe inside the window.",
     explanation: "Complete enumeration (E3) over the stated component alphabet; every returned address is checked component by component against the statement. Throttling: BFS over histories of the real Behaviour (E2) against a reference model of ongoing dial-backs and accepted-probe timestamps.",
     assumptions: &["component alphabet of 9 representatives, <= 4 components per address, <= 2 addresses per request", "throttling part: 3 requesting peers, one address per request, limits global 2 / per peer 1 / period 1 s, BFS depth 8 (quick) / 11 (thorough); a probe counts for the window in which its ToSwarm::Dial is issued; window = half-open interval of one period"],
 };
@@ -151,7 +151,9 @@ pub fn run(ctx: &Ctx) -> Outcome {
 /// window `(t - period, t]`, the lenient reading); a request that is not accepted gets an error
 /// response on its channel (not silence, not success); a dial-back that is still in flight keeps its
 /// response channel (an unrelated connection of the peer neither drops nor answers it) and is answered
-/// exactly when it finishes; a refusal needs a reason: an ongoing dial-back of the peer, or peer_max /
+/// exactly when it finishes; the addresses dialed (as announced in InboundProbeEvent::Request next to the Dial)
+/// carry only the requester's currently observed non-relayed IP (FromSwarm::AddressChange direct/relayed/other IP
+/// is part of the alphabet) and nothing is dialed while its only connection is relayed; a refusal needs a reason: an ongoing dial-back of the peer, only a relayed connection, or peer_max /
 /// global_max probes accepted within the last period (closed window, so both boundary readings are
 /// accepted) — explored with Config::throttle_server_period below and above the clients period.
 mod throttle {
@@ -179,6 +181,9 @@ mod throttle {
     static REFUSED_GLOBAL: AtomicU64 = AtomicU64::new(0);
     static ACCEPTED_AFTER_WINDOW: AtomicU64 = AtomicU64::new(0);
     static UNRELATED_CONNS: AtomicU64 = AtomicU64::new(0);
+    static ADDR_CHANGES: AtomicU64 = AtomicU64::new(0);
+    static REFUSED_RELAYED: AtomicU64 = AtomicU64::new(0);
+    static DIALS_DIRECT: [AtomicU64; 2] = [AtomicU64::new(0), AtomicU64::new(0)];
 
     #[derive(Clone, Debug, Serialize, Deserialize, PartialEq)]
     pub enum Act {
@@ -190,6 +195,9 @@ mod throttle {
         OtherOutbound(u8),
         /// a further inbound connection from the peer is established and closed again
         OtherInbound(u8),
+        /// FromSwarm::AddressChange on the peer's (only lasting) connection: new endpoint kind
+        /// 0 = direct at IP a, 1 = direct at IP b, 2 = relayed (remote address starts with the relay's global IP)
+        AddrChange(u8, u8),
         Advance(u64),
     }
 
@@ -204,6 +212,8 @@ mod throttle {
         ongoing: Vec<Option<(Multiaddr, Probe)>>,
         /// reference model: acceptance times (ms) of all accepted probes, per peer
         accepted: Vec<(u8, u64)>,
+        /// reference model: endpoint kind of the peer's lasting connection (see Act::AddrChange)
+        kind: Vec<u8>,
     }
 
     fn p(i: u8) -> libp2p_identity::PeerId {
@@ -241,7 +251,7 @@ mod throttle {
                 let _ = b.handle_established_inbound_connection(ConnectionId::new_unchecked(i as usize + 1), p(i), &"/ip4/9.9.9.9/tcp/4001".parse().unwrap(), &observed(i));
                 b.on_swarm_event(FromSwarm::ConnectionEstablished(ConnectionEstablished { peer_id: p(i), connection_id: ConnectionId::new_unchecked(i as usize + 1), endpoint: &ep, failed_addresses: &[], other_established: 0 }));
             }
-            let mut s = Sys { b, now_ms: 0, next_req: 0, next_conn: 100, ongoing: (0..NPEERS).map(|_| None).collect(), accepted: Vec::new() };
+            let mut s = Sys { b, now_ms: 0, next_req: 0, next_conn: 100, ongoing: (0..NPEERS).map(|_| None).collect(), accepted: Vec::new(), kind: vec![0; NPEERS as usize] };
             let _ = s.drain();
             s
         }
@@ -250,14 +260,16 @@ mod throttle {
             let w = futures::task::noop_waker();
             let mut cx = Context::from_waker(&w);
             let mut dials = Vec::new();
+            let mut announced: Vec<Multiaddr> = Vec::new();
             for _ in 0..64 {
                 match self.b.poll(&mut cx) {
-                    Poll::Ready(ToSwarm::Dial { mut opts }) => {
+                    Poll::Ready(ToSwarm::Dial { opts }) => {
                         let Some(pid) = opts.get_peer_id() else { return Err("dial-without-peer-id :: server issued a Dial without a peer id".into()) };
-                        // the addresses of the dial are what handle_pending_outbound_connection would be given; take them from the opts' Debug-free API
-                        let addrs = dial_addresses(&mut opts);
-                        dials.push((pid, addrs));
+                        // DialOpts keeps its address list crate-private; the server announces the very list it dials
+                        // in InboundProbeEvent::Request ("the addresses that will be attempted to dial"), emitted just before
+                        dials.push((pid, std::mem::take(&mut announced)));
                     }
+                    Poll::Ready(ToSwarm::GenerateEvent(libp2p_autonat::Event::InboundProbe(libp2p_autonat::InboundProbeEvent::Request { addresses, .. }))) => announced = addresses,
                     Poll::Ready(_) => {}
                     Poll::Pending => return Ok(dials),
                 }
@@ -266,14 +278,28 @@ mod throttle {
         }
     }
 
-    /// DialOpts does not expose its address list publicly; the server always dials the (filtered)
-    /// requested address, which the harness knows: observed IP + requested port + /p2p/<peer>.
-    fn dial_addresses(_opts: &mut libp2p_swarm::dial_opts::DialOpts) -> Vec<Multiaddr> {
-        Vec::new()
+    fn relay_ip() -> std::net::Ipv4Addr {
+        std::net::Ipv4Addr::new(7, 7, 7, 7)
     }
-
-    fn dialed_addr(i: u8) -> Multiaddr {
-        observed(i).with(Protocol::P2p(p(i)))
+    /// the lasting (inbound) connection's endpoint for an endpoint kind
+    fn endpoint(i: u8, kind: u8) -> ConnectedPoint {
+        let local: Multiaddr = "/ip4/9.9.9.9/tcp/4001".parse().unwrap();
+        match kind {
+            0 => ConnectedPoint::Listener { local_addr: local, send_back_addr: observed(i) },
+            1 => ConnectedPoint::Listener { local_addr: local, send_back_addr: format!("/ip4/8.9.{}.9/tcp/4001", i + 1).parse().unwrap() },
+            _ => {
+                let relay = Multiaddr::empty().with(Protocol::Ip4(relay_ip())).with(Protocol::Tcp(4001)).with(Protocol::P2p(peer(9))).with(Protocol::P2pCircuit);
+                ConnectedPoint::Listener { local_addr: relay.clone(), send_back_addr: relay.with(Protocol::P2p(p(i))) }
+            }
+        }
+    }
+    /// the non-relayed IP the server currently observes for the peer (None while relayed)
+    fn observed_ip(i: u8, kind: u8) -> Option<Protocol<'static>> {
+        match kind {
+            0 => Some(Protocol::Ip4(std::net::Ipv4Addr::new(8, 8, i + 1, 8))),
+            1 => Some(Protocol::Ip4(std::net::Ipv4Addr::new(8, 9, i + 1, 9))),
+            _ => None,
+        }
     }
 
     impl System for Sys {
@@ -287,6 +313,13 @@ mod throttle {
                     v.push(Act::DialFail(i));
                     v.push(Act::OtherOutbound(i));
                     v.push(Act::OtherInbound(i));
+                }
+            }
+            for i in 0..NPEERS {
+                for k in 0..3u8 {
+                    if self.kind[i as usize] != k {
+                        v.push(Act::AddrChange(i, k));
+                    }
                 }
             }
             v.push(Act::Advance(PERIOD_MS / 2));
@@ -319,6 +352,24 @@ mod throttle {
                         return Err(format!("dial-for-other-peer :: request of peer {i} produced dials for {:?}", dials.iter().map(|x| pidx(&x.0)).collect::<Vec<_>>()));
                     }
                     let resp = probe();
+                    let obs = observed_ip(*i, self.kind[*i as usize]);
+                    if let Some((_, addrs)) = dials.first() {
+                        let Some(ip) = &obs else {
+                            return Err(format!("dial-back-with-only-a-relayed-connection :: peer {i}: its only connection is relayed (no observed non-relayed IP) but the server dials {addrs:?}"));
+                        };
+                        DIALS_DIRECT[self.kind[*i as usize] as usize].fetch_add(1, SeqCst);
+                        if addrs.is_empty() {
+                            return Err(format!("dial-back-without-announced-addresses :: peer {i}: a Dial was issued without an InboundProbeEvent::Request announcing its addresses"));
+                        }
+                        for ad in addrs {
+                            if ad.iter().any(|c| matches!(c, Protocol::Ip4(_) | Protocol::Ip6(_)) && &c != ip) || !ad.iter().any(|c| &c == ip) {
+                                return Err(format!("dial-back-to-unobserved-ip :: peer {i}: would dial {ad} but the observed non-relayed IP of the requester is {ip}"));
+                            }
+                            if ad.iter().any(|c| matches!(c, Protocol::P2pCircuit)) || ad.iter().last() != Some(Protocol::P2p(p(*i))) {
+                                return Err(format!("dial-back-address-shape :: peer {i}: would dial {ad} (relay hop or not ending with the requester's peer id)"));
+                            }
+                        }
+                    }
                     if dials.len() == 1 {
                         ACCEPTED.fetch_add(1, SeqCst);
                         if was_ongoing {
@@ -337,14 +388,17 @@ mod throttle {
                             return Err(format!("accepted-and-answered :: peer {i}: a dial-back was started and the request was answered at once with {resp:?}"));
                         }
                         self.accepted.push((*i, self.now_ms));
-                        self.ongoing[*i as usize] = Some((dialed_addr(*i), probe));
+                        self.ongoing[*i as usize] = Some((dials[0].1[0].clone(), probe));
                     } else {
                         // the limits are per clients period: a refusal needs a reason. Probes of age <= period
                         // (closed window, the strict reading) may still count; older ones may not.
                         let cwin = |t: u64, now: u64| now - t <= PERIOD_MS;
                         let peer_c = self.accepted.iter().filter(|(q, t)| q == i && cwin(*t, self.now_ms)).count();
                         let all_c = self.accepted.iter().filter(|(_, t)| cwin(*t, self.now_ms)).count();
-                        if !was_ongoing && peer_c < PEER_MAX && all_c < GLOBAL_MAX {
+                        if obs.is_none() {
+                            REFUSED_RELAYED.fetch_add(1, SeqCst);
+                        }
+                        if !was_ongoing && peer_c < PEER_MAX && all_c < GLOBAL_MAX && obs.is_some() {
                             return Err(format!("request-refused-without-throttle-reason :: peer {i}: refused ({resp:?}) at {} ms although no dial-back is ongoing and only {peer_c}/{PEER_MAX} probes of the peer and {all_c}/{GLOBAL_MAX} in total were accepted within the last {PERIOD_MS} ms; accepted {:?}", self.now_ms, self.accepted));
                         }
                         if was_ongoing {
@@ -358,6 +412,17 @@ mod throttle {
                             Some(Some(Err(_))) => {}
                             other => return Err(format!("refused-request-without-error-response :: peer {i}: no dial-back was started and the response channel holds {other:?} (expected an error response such as DialRefused)")),
                         }
+                    }
+                }
+                Act::AddrChange(i, k) => {
+                    let old = endpoint(*i, self.kind[*i as usize]);
+                    let new = endpoint(*i, *k);
+                    self.b.on_swarm_event(FromSwarm::AddressChange(libp2p_swarm::behaviour::AddressChange { peer_id: p(*i), connection_id: ConnectionId::new_unchecked(*i as usize + 1), old: &old, new: &new }));
+                    self.kind[*i as usize] = *k;
+                    ADDR_CHANGES.fetch_add(1, SeqCst);
+                    let d = self.drain()?;
+                    if !d.is_empty() {
+                        return Err(format!("dial-without-request :: a Dial was issued by {a:?}"));
                     }
                 }
                 Act::OtherOutbound(i) | Act::OtherInbound(i) => {
@@ -426,7 +491,7 @@ mod throttle {
             let (ongoing, throttled) = self.b.verif_server_state();
             let ongoing: Vec<Option<u8>> = ongoing.iter().map(pidx).collect();
             let throttled: Vec<(Option<u8>, u128)> = throttled.iter().map(|(q, age)| (pidx(q), (*age).min(PERIOD_MS as u128 + 1))).collect();
-            format!("{og:?}|{acc:?}|{ever:?}|{ongoing:?}|{throttled:?}").into_bytes()
+            format!("{og:?}|{acc:?}|{ever:?}|{ongoing:?}|{throttled:?}|{:?}", self.kind).into_bytes()
         }
         fn nontrivial(&self) -> bool {
             self.accepted.iter().any(|(_, t)| self.now_ms - t < PERIOD_MS)
@@ -466,6 +531,13 @@ mod throttle {
         out.count("throttle_refused_global_limit", REFUSED_GLOBAL.load(SeqCst));
         out.count("throttle_accepted_again_after_window", ACCEPTED_AFTER_WINDOW.load(SeqCst));
         out.count("throttle_unrelated_connections_during_dial_back", UNRELATED_CONNS.load(SeqCst));
+        out.count("address_changes", ADDR_CHANGES.load(SeqCst));
+        out.count("requests_refused_while_only_relayed", REFUSED_RELAYED.load(SeqCst));
+        out.count("dial_backs_to_first_observed_ip", DIALS_DIRECT[0].load(SeqCst));
+        out.count("dial_backs_to_changed_observed_ip", DIALS_DIRECT[1].load(SeqCst));
+        if REFUSED_RELAYED.load(SeqCst) == 0 || DIALS_DIRECT[1].load(SeqCst) == 0 {
+            out.machinery("vacuity (observed address): exploration never refused a relayed-only requester / never dialed a changed observed IP");
+        }
         if ACCEPTED.load(SeqCst) == 0 || REFUSED_ONGOING.load(SeqCst) == 0 || REFUSED_PEER.load(SeqCst) == 0 || REFUSED_GLOBAL.load(SeqCst) == 0 || ACCEPTED_AFTER_WINDOW.load(SeqCst) == 0 || UNRELATED_CONNS.load(SeqCst) == 0 {
             out.machinery("vacuity (throttling): exploration did not reach every one of: accepted probe / refusal while ongoing / per-peer limit / global limit / re-acceptance after the window");
         }
